@@ -337,7 +337,7 @@ func genCleanCfg(t *rapid.T) hsConfig {
 	} else {
 		c.Pattern = "XX"
 		v := rapid.IntRange(0, 2).Draw(t, "version")
-		c.IMin, c.IMax, c.RMin, c.RMax = 0, 2, v, v
+		c.IMin, c.IMax, c.RMin, c.RMax = 0, 2, 0, v
 	}
 	c.AuthLen = rapid.SampledFrom([]int{0, 1, 32, 200}).Draw(t, "auth_len")
 	c.PassMode = "same"
